@@ -197,11 +197,23 @@ ShareControl(b, i, lim, base0) ==
 INFO_AUTOLOGON == 8
 INFO_UNICODE == 16
 
+\* well-formed UTF-16 (little endian bytes): every high surrogate D800..DBFF is followed by a low surrogate
+\* DC00..DFFF and no low surrogate stands alone
+RECURSIVE WellFormedUtf16(_)
+WellFormedUtf16(s) ==
+  IF Len(s) < 2 THEN TRUE
+  ELSE LET u == s[1] + 256 * s[2] IN
+       IF u >= 55296 /\ u <= 56319 THEN
+          Len(s) >= 4 /\ (LET v == s[3] + 256 * s[4] IN v >= 56320 /\ v <= 57343) /\ WellFormedUtf16(SubSeq(s, 5, Len(s)))
+       ELSE IF u >= 56320 /\ u <= 57343 THEN FALSE
+       ELSE WellFormedUtf16(SubSeq(s, 3, Len(s)))
+
 \* a UTF-16LE field of cb bytes followed by a 2-byte terminator, at b[i..]
 InfoStr(b, i, cb, lim) ==
   IF cb % 2 # 0 THEN Bad("info: odd cb for a unicode string")
   ELSE IF i + cb + 1 > lim THEN Bad("info: string exceeds packet")
   ELSE IF b[i+cb] # 0 \/ b[i+cb+1] # 0 THEN Bad("info: string not null terminated")
+  ELSE IF ~WellFormedUtf16(Sub(b, i, cb)) THEN Bad("info: string is not well-formed UTF-16 (unpaired surrogate)")
   ELSE [ok |-> TRUE, s |-> Sub(b, i, cb), next |-> i + cb + 2]
 
 ExtInfo(b, i, lim) ==
@@ -258,6 +270,7 @@ CsCore(b, i, n) ==      \* b[i..i+n-1] is the block body (without the 4 byte hea
   IF n \notin CsCoreCuts THEN Bad("cs_core: block size is not a valid cut of TS_UD_CS_CORE")
   ELSE IF ~HasNulUnit(b, i + 20, 32) THEN Bad("cs_core: clientName not null terminated within 32 bytes")
   ELSE IF ~HasNulUnit(b, i + 64, 64) THEN Bad("cs_core: imeFileName not null terminated")
+  ELSE IF ~WellFormedUtf16(Utf16Until0(b, i+20, 32)) THEN Bad("cs_core: clientName is not well-formed UTF-16 (unpaired surrogate)")
   ELSE [ok |-> TRUE, version |-> B4(b, i), width |-> U16LE(b, i+4), height |-> U16LE(b, i+6),
         kbdLayout |-> B4(b, i+12), clientName |-> Utf16Until0(b, i+20, 32),
         selectedProtocol |-> IF n >= 212 THEN B4(b, i+208) ELSE <<>>]
